@@ -64,6 +64,12 @@ def base_plan(seed=1, **kw):
         # upload target only: the downloader resets the file connection after `after` bytes, drops its P links, is from
         # then on reachable as `then` says, and asks for the file again `requeue_delay` later
         'ul_break': None,
+        # download target only: the uploader (which holds an open control connection) offers the file this many seconds
+        # after the stop call was ISSUED - i.e. possibly while the call is still waiting for the tasks it cancelled
+        'offer_on_stop': None,
+        # an application listener that takes its time inside a connection state notification (makes cancelling a
+        # connect attempt take virtual time)
+        'slow_listener': None,
     }
     plan.update(kw)
     return plan
@@ -117,6 +123,15 @@ def corpus(tier):
                     reach={'bob': {'direct': 'fast', 'delay': 0.02, 'pierce': then == 'blackhole', 'pierce_delay': 20.0}},
                     stop={'transfer': 0, 'op': op, 'k': 99, 'plus_iter': 0, 'fallback_at': t},
                     ul_break={'after': 4096, 'requeue_delay': 0.3, 'then': then, 'then_delay': then_delay}))
+    # the stop call waits for a cancelled connect attempt (slow CLOSING listener) while the uploader's offer arrives
+    for op in OPS:
+        for reach in ('slow', 'blackhole'):
+            for d in (0.0, 0.05, 0.2, 0.45):
+                for t in (0.3, 2.0):
+                    out.append(base_plan(
+                        reach={'bob': {'direct': reach, 'delay': 6.0 if reach == 'slow' else None, 'pierce': False}},
+                        stop={'transfer': 0, 'op': op, 'k': 99, 'plus_iter': 0, 'fallback_at': t},
+                        offer_on_stop=d, slow_listener={'state': 'CLOSING', 'delay': 0.5}, chunk_delay=0.01))
     # duplicated PeerTransferRequest handled back-to-back
     for op in OPS:
         for k in range(2, 9):
@@ -159,6 +174,9 @@ def generate(rng, index, tier):
     if rng.random() < 0.25:
         plan['spontaneous'] = rng.choice([0.0, 0.05, 0.5, 3.0, 12.0])
     target = transfers[plan['stop']['transfer']]
+    if target['dir'] == 'down' and rng.random() < 0.2:
+        plan['offer_on_stop'] = rng.choice([0.0, 0.001, 0.05, 0.3])
+        plan['slow_listener'] = {'state': rng.choice(('CLOSING', 'CLOSED')), 'delay': rng.choice([0.01, 0.1, 0.5])}
     if target['dir'] == 'up' and rng.random() < 0.4:
         then = rng.choice(('slow', 'blackhole', 'refused', None))
         plan['ul_break'] = {'after': rng.choice([1, 4096, 30000]), 'requeue_delay': rng.choice([0.0, 0.3, 2.0, 12.0]),
@@ -174,6 +192,10 @@ def simplify(plan):
         yield dict(plan, spontaneous=None)
     if plan.get('ul_break'):
         yield dict(plan, ul_break=None)
+    if plan.get('offer_on_stop') is not None:
+        yield dict(plan, offer_on_stop=None)
+    if plan.get('slow_listener'):
+        yield dict(plan, slow_listener=None)
     if plan.get('dup_request'):
         yield dict(plan, dup_request=0)
     if plan['stop'].get('plus_iter'):
@@ -251,6 +273,18 @@ def _run(world: World, plan):
                 await asyncio.sleep(r.get('pierce_delay', 0.05))
                 await orig(relay)
             xp.peer.connect_to_peer_handler = delayed
+
+    slow = plan.get('slow_listener')
+    if slow:
+        from aioslsk.events import ConnectionStateChangedEvent
+        from aioslsk.network.connection import PeerConnection
+
+        async def slow_listener(event):
+            if isinstance(event.connection, PeerConnection) and event.state.name == slow['state']:
+                world.probe('slow_listener_held_notification')
+                await asyncio.sleep(slow['delay'])
+        world.keep_alive.append(slow_listener)
+        client.events.register(ConnectionStateChangedEvent, slow_listener, priority=2000)
 
     # negotiation task registry (task factory wrapper) --------------------------------
     nego = []        # [task, kind, transfer or None]
@@ -336,6 +370,10 @@ def _run(world: World, plan):
             and a['dst'] == target_spec['peer'] and a['time'] + 10.0 > loop.time()
             for a in world.net.connect_attempts)
         stop_state['call'] = world.call(alice, f'stop-{op}', fn, tr)
+        if plan.get('offer_on_stop') is not None and target_spec['dir'] == 'down':
+            world.net.fired['offer_during_stop_call'] += 1
+            xp = xpeers[target_spec['peer']]
+            xp.peer.spawn(xp.offer(target_path(), delay=float(plan['offer_on_stop'])))
         stop_state['call'].task.add_done_callback(lambda _t, tr=tr: at_return(tr))
 
     def at_return(tr):
@@ -428,6 +466,8 @@ def _run(world: World, plan):
             if plan.get('dup_request') and t['id'] == target_spec['id']:
                 beh['dup_request'] = plan['dup_request']
             xp.share(path, pattern_bytes(t['size'], t['id']), **beh)
+            if plan.get('offer_on_stop') is not None and t['id'] == target_spec['id']:
+                await xp.peer.spawn(xp.p_link())
             c = world.call(alice, f"download-{t['id']}", tm.download, t['peer'], path)
             await c.task
             if plan.get('spontaneous') is not None and t['id'] == target_spec['id']:
